@@ -98,6 +98,10 @@ Definition pair_of (ext sep : string) (n : name) : list (string * string) :=
 Definition pairs_all (ext sep : string) (names : list name) : list (string * string) :=
   flat_map (pair_of ext sep) (List.filter (has_ext ext) names).
 
+(* (q, m) if q < m else (m, q): Python compares str by code point = byte order of the UTF-8 encodings *)
+Definition ordered (p : string * string) : string * string :=
+  if sltb (fst p) (snd p) then p else (snd p, fst p).
+
 (* ------------------------------------------------------------------ reading one array *)
 Inductive rd :=
 | RArr (rows : N) (data : bytes)      (* array of that many rows holding exactly these bytes *)
@@ -249,9 +253,22 @@ Section Norm.
         | Some kn => List.filter (fun i => mem (norm (i ++ ext)%string) (s_files s)) kn
         end.
 
-    (* matches_from_dir without a pairs file *)
-    Definition match_pairs (handlers : bool) (known : option (list string)) (s : store) : list (string * string) :=
-      let all := pairs_all ext sep (keys (content handlers s)) in
+    (* matches_from_dir.  A pairs file (kapture_from_dir(..., matches_pairs_file_path=...), what kapture_export_colmap
+       uses) restricts the load: each line "name1, name2, score" denotes the UNORDERED pair, put in (smaller, larger)
+       name order; archive route = keep the stored pairs found among them, directory route = keep those of them whose
+       file exists *)
+    Definition pair_fname (p : string * string) : name := (fst p ++ sep ++ "/" ++ snd p ++ ext)%string.
+    Definition match_pairs (handlers : bool) (known : option (list string)) (pf : option (list (string * string)))
+               (s : store) : list (string * string) :=
+      let all :=
+        match pf with
+        | None => pairs_all ext sep (keys (content handlers s))
+        | Some lines =>
+            let valid := map ordered lines in
+            if uses_tar handlers s
+            then List.filter (fun p => memb p valid) (pairs_all ext sep (keys (content handlers s)))
+            else List.filter (fun p => mem (norm (pair_fname p)) (s_files s)) valid
+        end in
       match known with
       | None => all
       | Some kn => List.filter (fun p => memb (fst p) kn && memb (snd p) kn) all
@@ -301,6 +318,7 @@ Record store_case := {
   sc_appends : log;                          (* then appended through kapture's API (mode 'a'), closed *)
   sc_handlers : bool;                        (* the reader passes get_all_tar_handlers(...) *)
   sc_known : option (list string);           (* images of records_camera; None = *_from_dir(images=None) *)
+  sc_pairsfile : option (list (string * string));   (* (name1, name2) of the lines of the pairs file, if one is given *)
   sc_reads : list (name * N * N);            (* file asked for, itemsize, dsize *)
   so_images : list string;
   so_pairs : list (string * string);
@@ -319,7 +337,7 @@ Definition check_store (c : store_case) : bool :=
   let st := sc_store c in
   tnorm_idem (sc_norm c)
   && (if String.eqb (sc_kind c) "Matches"
-      then set_eqb (match_pairs nm ext Ttar.pair_sep (sc_handlers c) (sc_known c) st) (so_pairs c)
+      then set_eqb (match_pairs nm ext Ttar.pair_sep (sc_handlers c) (sc_known c) (sc_pairsfile c) st) (so_pairs c)
            && match so_images c with [] => true | _ => false end
       else set_eqb (images nm ext (sc_handlers c) (sc_known c) st) (so_images c)
            && match so_pairs c with [] => true | _ => false end)
